@@ -223,13 +223,20 @@ def cond_strategy(kind, tier):
 
 def cond_check(kind, case, rec):
     fem = import_felupe()
-    dim3 = kind == "hexahedron"
+    dim3 = kind.startswith("hexahedron")
+    axi = kind.endswith("-axi")
     if dim3:
         mesh = jittered(fem, fem.Cube(n=tuple(case["n"])), case["jitter"], case["seed"])
-        region = fem.RegionHexahedron(mesh)
+        if kind == "hexahedron20":
+            mesh = mesh.add_midpoints_edges()
+        region = (fem.RegionQuadraticHexahedron if kind == "hexahedron20" else fem.RegionHexahedron)(mesh)
     else:
-        mesh = jittered(fem, fem.Rectangle(n=tuple(case["n"][:2])), case["jitter"], case["seed"])
-        region = fem.RegionQuad(mesh)
+        # axisymmetric bodies: a ring at a drawn distance from the axis (x = axial, y = radial coordinate)
+        r0 = (0.0, 0.4, 1.5)[case["seed"] % 3] if axi else 0.0
+        mesh = jittered(fem, fem.Rectangle(a=(0.0, r0), b=(1.0, r0 + 1.0), n=tuple(case["n"][:2])), case["jitter"], case["seed"])
+        if kind.startswith("quad8"):
+            mesh = mesh.add_midpoints_edges()
+        region = (fem.RegionQuadraticQuad if kind.startswith("quad8") else fem.RegionQuad)(mesh)
     mu = case["mu"]
     bulk = case["bulkratio"] * mu
     if case["mat"] == "NeoHooke":
@@ -238,18 +245,48 @@ def cond_check(kind, case, rec):
         um = gmat.build("tt:yeoh", {"C10": mu / 2, "C20": 0.05, "C30": 0.01})
     else:
         um = gmat.build("tt:mooney_rivlin", {"C10": mu / 3, "C01": mu / 6})
-    ps = not dim3
-    f1 = fem.FieldContainer([fem.FieldPlaneStrain(region, dim=2) if ps else fem.Field(region, dim=3)])
-    b1, lc1 = fem.dof.uniaxial(f1, clamped=case["clamped"], move=case["move"])
+    ps = not dim3 and not axi
+    f1 = fem.FieldContainer([fem.FieldAxisymmetric(region, dim=2) if axi else fem.FieldPlaneStrain(region, dim=2) if ps else fem.Field(region, dim=3)])
     s1 = fem.SolidBodyNearlyIncompressible(um, f1, bulk=bulk)
-    f2 = fem.FieldsMixed(region, n=3, planestrain=ps)
-    b2, lc2 = fem.dof.uniaxial(f2, clamped=case["clamped"], move=case["move"])
+    r0vec = np.asarray(s1.assemble.vector(f1).toarray()).ravel().copy()
+    K0 = np.asarray(s1.assemble.matrix(f1).toarray())
+    rec.close("condensed: no forces in the undeformed body", float(np.abs(r0vec).max()) / float(np.abs(K0).max()), 1e-12)
+    s1 = fem.SolidBodyNearlyIncompressible(um, f1, bulk=bulk)
+    f2 = fem.FieldsMixed(region, n=3, planestrain=ps, axisymmetric=axi)
     s2 = fem.SolidBody(fem.NearlyIncompressible(um, bulk=bulk), f2)
-    try:
-        res1 = fem.newtonrhapson(items=[s1], **lc1, tol=1e-11, maxiter=40)
-        res2 = fem.newtonrhapson(items=[s2], **lc2, tol=1e-11, maxiter=40)
-    except ValueError:
-        rec.reject("Newton did not converge")
+    def solve(solid, field, steps):
+        res = None
+        for k in range(1, steps + 1):
+            _, lc = fem.dof.uniaxial(field, clamped=case["clamped"], move=case["move"] * k / steps)
+            res = fem.newtonrhapson(items=[solid], **lc, tol=1e-11, maxiter=40)
+        return res
+
+    def attempt(steps):
+        out = []
+        for solid, field in ((s1, f1), (s2, f2)):
+            try:
+                out.append(solve(solid, field, steps))
+            except ValueError:
+                out.append(None)
+        return out
+
+    res1, res2 = attempt(1)
+    if res1 is None or res2 is None:
+        # a one-sided failure in one step is retried as a four-step ramp from scratch before it counts
+        f1[0].values[...] = 0
+        for f in f2:
+            f.values[...] = 0
+        f2[2].values[...] = 1
+        s1 = fem.SolidBodyNearlyIncompressible(um, f1, bulk=bulk)
+        s2 = fem.SolidBody(fem.NearlyIncompressible(um, bulk=bulk), f2)
+        res1, res2 = attempt(4)
+        rec.label("ramped")
+    if res1 is None and res2 is None:
+        rec.reject("Newton did not converge in either formulation")
+        return
+    rec.require("both-formulations-converge", res1 is not None and res2 is not None,
+                {"condensed": res1 is not None, "three-field": res2 is not None, "bulk/mu": case["bulkratio"], "move": case["move"]})
+    if res1 is None or res2 is None:
         return
     rec.nontrivial = abs(case["move"]) >= 0.05 and case["clamped"]
     u1, u2 = res1.x[0].values, res2.x[0].values
@@ -263,11 +300,18 @@ def cond_check(kind, case, rec):
         rec.close("pressures", float(np.abs(p1 - p2).max()) / max(float(np.abs(p2).max()), mu * 1e-3), 1e-6, {"bulk/mu": case["bulkratio"]})
         rec.close("volume-ratios", float(np.abs(J1 - J2).max()), 1e-8)
         # J is the cell volume ratio v / V of the converged state
-        fv = fem.FieldContainer([fem.Field(region, dim=mesh.dim, values=u2[:, : mesh.dim])])
+        fv = fem.FieldContainer([(fem.FieldAxisymmetric if axi else fem.Field)(region, dim=mesh.dim, values=u2[:, : mesh.dim])])
         Fq = np.asarray(fv.extract()[0])
         detF = np.linalg.det(np.moveaxis(Fq, (0, 1), (-2, -1)))
-        Jc = (detF * region.dV).sum(0) / region.dV.sum(0)
+        dV = region.dV * fv[0].radius if axi else region.dV  # the factor 2 pi cancels in the ratio
+        Jc = (detF * dV).sum(0) / dV.sum(0)
         rec.close("J = v/V", float(np.abs(J2 - Jc).max()), 1e-8)
+        # the condensed tangent is the Schur complement of the three-field tangent at the common converged state
+        K1 = np.asarray(s1.assemble.matrix(res1.x).toarray())
+        K2 = np.asarray(s2.assemble.matrix(res2.x).toarray())
+        nu = K1.shape[0]
+        S = K2[:nu, :nu] - K2[:nu, nu:] @ np.linalg.solve(K2[nu:, nu:], K2[nu:, :nu])
+        rec.close("condensed tangent = Schur complement of the three-field tangent", float(np.abs(K1 - S).max()) / float(np.abs(S).max()), 1e-6, {"bulk/mu": case["bulkratio"]})
         rec.close("p = K (J - 1)", float(np.abs(p2 - bulk * (J2 - 1)).max()) / max(float(np.abs(p2).max()), mu * 1e-3), 1e-7)
 
 
@@ -315,7 +359,8 @@ FAMILIES = [
     Family("planestrain-vs-slab", ["quad", "quad8", "quad9"], ps_check, strategy=ps_strategy, n={"quick": 24, "thorough": 300}, chunk=8, weight=3),
     Family("axisymmetric", ["energy", "revolve-quick"], axi_check, strategy=axi_strategy, n={"quick": 8, "thorough": 80}, chunk=4, weight=4),
     Family("axisymmetric-rate", ["revolve-thorough"], axi_check, strategy=axi_strategy, n={"quick": 1, "thorough": 30}, chunk=3, weight=6),
-    Family("condensed-vs-threefield", ["hexahedron", "quad"], cond_check, strategy=cond_strategy, n={"quick": 25, "thorough": 300}, chunk=5, weight=3),
+    Family("condensed-vs-threefield", ["hexahedron", "quad", "quad-axi", "quad8", "quad8-axi"], cond_check, strategy=cond_strategy, n={"quick": 20, "thorough": 300}, chunk=5, weight=3),
+    Family("condensed-vs-threefield-q", ["hexahedron20"], cond_check, strategy=cond_strategy, n={"quick": 6, "thorough": 60}, chunk=2, weight=8),
     Family("uniform-vs-general", ["quad", "quad8", "quad9", "hexahedron", "hexahedron20"], uni_check, strategy=uni_strategy, n={"quick": 18, "thorough": 200}, chunk=6),
 ]
 
